@@ -1,6 +1,7 @@
 import DracoProofs.Wrap
 import DracoProofs.Octahedron
 import DracoProofs.GeneratedFuncs
+import DracoProofs.GeneratedPred
 /-
   C16 — prediction-correction transforms are exactly invertible.
 
@@ -376,5 +377,19 @@ theorem source_octaLegacyEncode_is_model (t : OctaT) (orig pred : Int × Int) (h
 example : Generated.PredictionSchemeNormalOctahedronEncodingTransform.ComputeCorrection
     (Generated.ofOctaT (Octa.ofCenter 127)) (3, 77) (200, 13) = Octa.legacyEncCorr (Octa.ofCenter 127) (3, 77) (200, 13) :=
   source_octaLegacyEncode_is_model _ _ _ (by unfold OctaT.WF Octa.ofCenter; decide) (by unfold Octa.inGrid Octa.ofCenter; decide) (by unfold Octa.inGrid Octa.ofCenter; decide)
+
+open Generated in
+/-- the loop body of `ComputeParallelogramPrediction<CornerTable, int32_t>` (five statements, cut out of the translated
+    function by AST position): component `c` of the prediction is `next + prev − opp` formed in `int64_t` and converted to
+    `int32_t` (`wrap32`) — what the model's `parallelogramPrediction` pushes — for all `int32_t` data and in-range indices -/
+theorem source_parallelogramComponent_is_model (inData : Int → Int) (vn vp vo c : Int)
+    (hd : ∀ i, I32 (inData i)) (h1 : I32 (vn + c)) (h2 : I32 (vp + c)) (h3 : I32 (vo + c)) :
+    (ComputeParallelogramPrediction_component inData vn c vp vo).2.2.2.2 =
+      [(c, wrap32 (inData (vn + c) + inData (vp + c) - inData (vo + c)))] ∧
+    (ComputeParallelogramPrediction_component inData vn c vp vo).2.2.2.1 =
+      inData (vn + c) + inData (vp + c) - inData (vo + c) :=
+  ComputeParallelogramPrediction_component_eq_model inData vn vp vo c hd h1 h2 h3
+example : (Generated.ComputeParallelogramPrediction_component (fun i => 2^31 - 1 - i) 0 1 3 6).2.2.2.2 = [(1, -2147483647)] := by
+  decide
 
 end Draco
